@@ -3956,11 +3956,11 @@ def walk_once(r: R, chk, quals: List[str], rule="WALK-ONCE", floor: int = 1):
                         consumers.append(x)
                     if isinstance(x, (ast.For, ast.comprehension)) and isinstance(x.iter, ast.Name) and x.iter.id == p:
                         consumers.append(x.iter)
-            if not consumers:
+            if not consumers and rebound_at is None:
                 continue
             n += 1
             ok = len(consumers) <= 1
-            chk.ob(rule, f"{q}: `{p}` is walked by one consumer before it is materialised", ok, loc=f"{fi.module}.py:{getattr(consumers[min(1, len(consumers) - 1)], 'lineno', fi.node.lineno)}",
+            chk.ob(rule, f"{q}: `{p}` is walked by one consumer before it is materialised", ok, loc=f"{fi.module}.py:{getattr(consumers[min(1, len(consumers) - 1)], 'lineno', fi.node.lineno) if consumers else rebound_at.lineno}",
                    detail="" if ok else f"{q}: `{p}` is consumed by `{seg(consumers[0], 40)}` and again by `{seg(consumers[1], 40)}` without `{p} = tuple({p})` in between: a one-pass iterable is exhausted by the first, the second sees nothing — a validity test passes vacuously and nodes outside the interval are inserted (the vector comes out with knots beyond its ends)",
                    func=q, construct=f"{p} walked twice")
     chk.floor(rule, "sequence parameters of the knot-vector editing functions examined", n, floor)
